@@ -146,6 +146,13 @@ def run_long_history(tape):
                  f"never completed although the frame arrived ({done['served']} requests were "
                  f"served meanwhile)", long_history=True)
         for f in lost:
+            if f.done() and not f.cancelled() and f.exception() is not None:
+                e = f.exception()
+                viol("foreign-exception", f"a request of the burst of {burst} (their frames "
+                     f"were lost) ended with {type(e).__name__}: {e}",
+                     exception=type(e).__name__, long_history=True)
+                break
+        for f in lost:
             f.cancel()
         if done["late"] is not None and done["late"] != expect(0x8800, 6):
             viol("wrong-bytes", f"the held-back request returned {done['late'].hex()}, the "
